@@ -1103,6 +1103,9 @@ func (e *Engine) checkGuarded(s *State, fn *ssa.Function, c *FuncContract) {
 		}
 	}
 	for _, g := range c.Guards {
+		if !clauseInScope(g.Tag) {
+			continue
+		}
 		sites := 0
 		var bad []string
 		heapUsed := map[string]bool{}
@@ -1361,6 +1364,9 @@ func parseCallersClause(rest string) (*CallersClause, error) {
 
 func (e *Engine) checkOnlyCallers(s *State, fn *ssa.Function, c *FuncContract) {
 	for _, cl := range c.Callers {
+		if !clauseInScope(cl.Tag) {
+			continue
+		}
 		var bad []string
 		sites := 0
 		var keys []string
@@ -1435,4 +1441,18 @@ func (e *Engine) checkOnlyCallers(s *State, fn *ssa.Function, c *FuncContract) {
 			o.Result = &SolverResult{Status: "unsat", Solver: "static-call-graph"}
 		}
 	}
+}
+
+// clauseInScope: a static clause tagged [Cnn.x] is evaluated while property Cnn is checked (and under `govc debug`);
+// contract blocks of one function are merged across properties, and a root of one property should not report the
+// static clauses of another.
+func clauseInScope(tag string) bool {
+	if currentPropID == "" || tag == "" {
+		return true
+	}
+	k := strings.Index(tag, ".")
+	if k < 0 {
+		return true
+	}
+	return tag[:k] == currentPropID
 }
